@@ -110,6 +110,13 @@ func (c *evalCtx) lookupVar(name string) (val, bool) {
 		}
 		return v, true
 	}
+	if c.fr != nil && c.fr.namedVals != nil {
+		if sv, ok := c.fr.namedVals[name]; ok {
+			if v, ok := c.fr.vals[sv]; ok {
+				return val{t: v.t, typ: tMathInt}, true
+			}
+		}
+	}
 	// named local / parameter cell of the current frame
 	if c.fr != nil {
 		if a, ok := c.fr.names[name]; ok {
@@ -181,7 +188,7 @@ func (c *evalCtx) eval(e Expr) val {
 		switch u := base.typ.Underlying().(type) {
 		case *types.Slice:
 			i := c.eval(x.I)
-			return val{t: fmt.Sprintf("(select (s.arr %s) (+ (s.off %s) %s))", base.t, base.t, i.t), typ: u.Elem()}
+			return val{t: fmt.Sprintf("(select (s.arr %s) %s)", base.t, i.t), typ: u.Elem()}
 		case *types.Array:
 			i := c.eval(x.I)
 			return val{t: fmt.Sprintf("(select %s %s)", base.t, i.t), typ: u.Elem()}
@@ -213,7 +220,7 @@ func (c *evalCtx) eval(e Expr) val {
 			if x.Hi != nil {
 				hi = c.eval(x.Hi).t
 			}
-			return val{t: fmt.Sprintf("(mk-slice (s.arr %s) (+ (s.off %s) %s) (- %s %s) (- (s.cap %s) %s))", base.t, base.t, lo, hi, lo, base.t, lo), typ: base.typ}
+			return val{t: vc.subSlice(base.t, vc.sorts.SortOf(base.typ), lo, hi, fmt.Sprintf("(s.cap %s)", base.t)), typ: base.typ}
 		}
 		if isStringType(base.typ) {
 			lo := "0"
@@ -275,6 +282,11 @@ func (c *evalCtx) ident(name string) val {
 		return c.vars[name]
 	}
 	if v, ok := c.lookupVar(name); ok {
+		if v.lv != nil && v.t == "" {
+			// address of a field / local passed by reference: never nil
+			v.t = vc.freshConst("addr", "Int")
+			vc.assume("true", fmt.Sprintf("(> %s 0)", v.t))
+		}
 		return v
 	}
 	if cs, ok := vc.eng.db.Consts[name]; ok {
@@ -453,8 +465,8 @@ func (c *evalCtx) binary(x *EBinary) val {
 		if strings.HasPrefix(sa, "(Slice ") {
 			// sequence equality
 			k := vc.newName("k")
-			t = fmt.Sprintf("(and (= (s.len %s) (s.len %s)) (forall ((%s Int)) (=> (and (<= 0 %s) (< %s (s.len %s))) (= (select (s.arr %s) (+ (s.off %s) %s)) (select (s.arr %s) (+ (s.off %s) %s))))))",
-				a.t, b.t, k, k, k, a.t, a.t, a.t, k, b.t, b.t, k)
+			t = fmt.Sprintf("(and (= (s.len %s) (s.len %s)) (forall ((%s Int)) (=> (and (<= 0 %s) (< %s (s.len %s))) (= (select (s.arr %s) %s) (select (s.arr %s) %s)))))",
+				a.t, b.t, k, k, k, a.t, a.t, k, b.t, k)
 		} else {
 			t = fmt.Sprintf("(= %s %s)", a.t, b.t)
 		}
@@ -497,6 +509,10 @@ func (c *evalCtx) resolveType(name string) types.Type {
 		return types.Typ[types.Uint]
 	case "string":
 		return types.Typ[types.String]
+	case "any":
+		return types.NewInterfaceType(nil, nil)
+	case "error":
+		return types.Universe.Lookup("error").Type()
 	}
 	if strings.HasPrefix(name, "*") {
 		return types.NewPointer(c.resolveType(name[1:]))
@@ -641,20 +657,20 @@ func (c *evalCtx) call(x *ECall) val {
 		argN(3)
 		a, b, e := c.eval(x.Args[0]), c.eval(x.Args[1]), c.eval(x.Args[2])
 		k := vc.newName("k")
-		return val{t: fmt.Sprintf("(and (= (s.len %s) (+ (s.len %s) 1)) (= (select (s.arr %s) (+ (s.off %s) (s.len %s))) %s) (forall ((%s Int)) (=> (and (<= 0 %s) (< %s (s.len %s))) (= (select (s.arr %s) (+ (s.off %s) %s)) (select (s.arr %s) (+ (s.off %s) %s))))))",
-			a.t, b.t, a.t, a.t, b.t, e.t, k, k, k, b.t, a.t, a.t, k, b.t, b.t, k), typ: tBool}
+		return val{t: fmt.Sprintf("(and (= (s.len %s) (+ (s.len %s) 1)) (= (select (s.arr %s) (s.len %s)) %s) (forall ((%s Int)) (=> (and (<= 0 %s) (< %s (s.len %s))) (= (select (s.arr %s) %s) (select (s.arr %s) %s)))))",
+			a.t, b.t, a.t, b.t, e.t, k, k, k, b.t, a.t, k, b.t, k), typ: tBool}
 	case "seqprefix": // seqprefix(a, b, n): a == b[:n]
 		argN(3)
 		a, b, n := c.eval(x.Args[0]), c.eval(x.Args[1]), c.eval(x.Args[2])
 		k := vc.newName("k")
-		return val{t: fmt.Sprintf("(and (= (s.len %s) %s) (forall ((%s Int)) (=> (and (<= 0 %s) (< %s %s)) (= (select (s.arr %s) (+ (s.off %s) %s)) (select (s.arr %s) (+ (s.off %s) %s))))))",
-			a.t, n.t, k, k, k, n.t, a.t, a.t, k, b.t, b.t, k), typ: tBool}
+		return val{t: fmt.Sprintf("(and (= (s.len %s) %s) (forall ((%s Int)) (=> (and (<= 0 %s) (< %s %s)) (= (select (s.arr %s) %s) (select (s.arr %s) %s)))))",
+			a.t, n.t, k, k, k, n.t, a.t, k, b.t, k), typ: tBool}
 	case "seqtail": // seqtail(a, b): a == b[1:]
 		argN(2)
 		a, b := c.eval(x.Args[0]), c.eval(x.Args[1])
 		k := vc.newName("k")
-		return val{t: fmt.Sprintf("(and (= (s.len %s) (- (s.len %s) 1)) (forall ((%s Int)) (=> (and (<= 0 %s) (< %s (s.len %s))) (= (select (s.arr %s) (+ (s.off %s) %s)) (select (s.arr %s) (+ (s.off %s) %s 1))))))",
-			a.t, b.t, k, k, k, a.t, a.t, a.t, k, b.t, b.t, k), typ: tBool}
+		return val{t: fmt.Sprintf("(and (= (s.len %s) (- (s.len %s) 1)) (forall ((%s Int)) (=> (and (<= 0 %s) (< %s (s.len %s))) (= (select (s.arr %s) %s) (select (s.arr %s) (+ %s 1))))))",
+			a.t, b.t, k, k, k, a.t, a.t, k, b.t, k), typ: tBool}
 	case "fnid": // fnid(f) integer id of a function value (identity)
 		argN(1)
 		v := c.eval(x.Args[0])
@@ -662,6 +678,9 @@ func (c *evalCtx) call(x *ECall) val {
 	case "isnil":
 		argN(1)
 		v := c.eval(x.Args[0])
+		if _, isI := v.typ.Underlying().(*types.Interface); isI {
+			return val{t: fmt.Sprintf("(= (i.tid %s) 0)", v.t), typ: tBool}
+		}
 		return val{t: fmt.Sprintf("(= %s %s)", v.t, S.ZeroOf(v.typ)), typ: tBool}
 	case "typeis": // typeis(iface, T)
 		argN(2)
